@@ -272,6 +272,17 @@ where
         bit_write: &mut W,
         mut n: u64,
     ) -> Result<(), CopyError<Self::Error, W::Error>> {
+        // The buffer can hold more than 64 bits, but write_bits can transfer
+        // at most 64 bits: move the excess first
+        if n > 64 && self.bits_in_buffer > 64 {
+            let excess = self.bits_in_buffer - 64;
+            let bits = self.read_bits(excess).map_err(CopyError::ReadError)?;
+            bit_write
+                .write_bits(bits, excess)
+                .map_err(CopyError::WriteError)?;
+            n -= excess as u64;
+        }
+
         let from_buffer = Ord::min(n, self.bits_in_buffer as _);
         self.buffer = self.buffer.rotate_left(from_buffer as _);
 
@@ -519,6 +530,17 @@ where
         bit_write: &mut W,
         mut n: u64,
     ) -> Result<(), CopyError<Self::Error, W::Error>> {
+        // The buffer can hold more than 64 bits, but write_bits can transfer
+        // at most 64 bits: move the excess first
+        if n > 64 && self.bits_in_buffer > 64 {
+            let excess = self.bits_in_buffer - 64;
+            let bits = self.read_bits(excess).map_err(CopyError::ReadError)?;
+            bit_write
+                .write_bits(bits, excess)
+                .map_err(CopyError::WriteError)?;
+            n -= excess as u64;
+        }
+
         let from_buffer = Ord::min(n, self.bits_in_buffer as _);
 
         #[allow(unused_mut)]
